@@ -115,6 +115,41 @@ def rule_release(ctx):
             ctx.violation("C20.a", "__init__", "patch", a.ast, m.loc(a.ast),
                           "after the instance's engine connection is opened there is a path out of patch() that never closes it",
                           witness=g.fmt_path(path))
+    # what is closed is the connection the instance *opened* (the root every session's cursor hangs off) — not a value a
+    # property manufactures per access (`return self._root.cursor()`: closing that throw-away leaves root and sessions open)
+    im = prog.modules.get("instance")
+    root_attrs, prop_returns = set(), {}
+    if im is not None:
+        for q, f_ in im.functions.items():
+            if q.startswith("FakeSnow."):
+                for n_ in ast.walk(f_):
+                    if isinstance(n_, ast.Assign) and isinstance(n_.value, ast.Call) and (prog.dotted(im, n_.value.func) or "").endswith("duckdb.connect"):
+                        root_attrs |= {t.attr for t in n_.targets if isinstance(t, ast.Attribute) and isinstance(t.value, ast.Name) and t.value.id == "self"}
+                if any(isinstance(d_, ast.Name) and d_.id == "property" for d_ in f_.decorator_list):
+                    prop_returns[q.split(".", 1)[1]] = [norm(r_.value) for r_ in ast.walk(f_) if isinstance(r_, ast.Return) and r_.value is not None]
+    closed = []
+    for n_ in ast.walk(fn):
+        e_ = None
+        if isinstance(n_, ast.Call) and isinstance(n_.func, ast.Attribute) and n_.func.attr == "close" and "duck_conn" in norm(n_.func.value):
+            e_ = n_.func.value
+        elif isinstance(n_, ast.Call) and norm(n_.func).split(".")[-1] == "closing" and n_.args and "duck_conn" in norm(n_.args[0]):
+            e_ = n_.args[0]
+        elif isinstance(n_, ast.Attribute) and n_.attr == "close" and "duck_conn" in norm(n_.value) and isinstance(n_.ctx, ast.Load):
+            e_ = n_.value
+        if isinstance(e_, ast.Attribute) and not any(e_ is c_ for c_ in closed):
+            closed.append(e_)
+    if root_attrs:
+        for e_ in closed:
+            a_ = e_.attr
+            ok_root = a_ in root_attrs or (a_ in prop_returns and prop_returns[a_] and all(r_ in {f"self.{x}" for x in root_attrs} for r_ in prop_returns[a_]))
+            ctx.ob("C20.a", f"patch() closes the instance's own engine connection (`{norm(e_)}`)", ok_root, m.loc(e_),
+                   "" if ok_root else f"property returning {prop_returns.get(a_)}" if a_ in prop_returns else "not the attribute duckdb.connect() was stored in")
+            if not ok_root:
+                ctx.violation("C20.a", "__init__", "patch", f"close of `{norm(e_)}` is not the root engine connection", m.loc(e_),
+                              f"patch() closes `{norm(e_)}`, which is " + (f"a property computing `{prop_returns[a_][0]}` on every access" if a_ in prop_returns and prop_returns[a_]
+                                                                             else "not where the instance keeps the connection it opened")
+                              + f" (the engine connection lives in `self.{sorted(root_attrs)[0]}`): leaving the block closes a throw-away handle, the root "
+                                f"connection and every connection handed out stay open and usable after the block")
     # C20.b guard dominates acquires
     def leads_to_raise(b):
         """does one side of the branch raise within a few events (`if <already patched>: raise ...`)?"""
